@@ -3,7 +3,8 @@ A bytecode verifier for Koto chunks: `wfChunk bytes constKinds : Bool`.
 
 A chunk is a tree of *units* (function bodies): the top-level unit is the whole byte string; a
 `Function` instruction is followed by `size` bytes that form a nested unit, skipped by the enclosing
-instruction stream (`run_make_function`: `jump_ip(size)`) and verified as its own unit.
+instruction stream (`run_make_function`: `jump_ip(size)`) and verified as its own unit; so is the
+body of an unused function literal, which follows a `Jump` over it (`skipsUnit`).
 
 For every unit the verifier demands
 
@@ -63,24 +64,38 @@ structure Sub where
   need : Nat
   deriving Repr
 
-/-- Linear sweep over the bytes of one unit starting at absolute position `pc`.
-`none`: some position does not decode, or a `Function` body runs past the end of the unit. -/
+/-- Does the instruction skip a nested unit that follows it? `(length, registers the frame must hold)`.
+* `Function`: the `size` bytes after it are the function's body (`run_make_function`: `jump_ip(size)`);
+  its frame holds `self`, the arguments and the captures.
+* `Jump` directly followed by a `NewFrame` opcode: the body of a function literal whose value is
+  unused (`compile_function` without a result register, since fix 30b24e7): the body is compiled for
+  its error checks and jumped over; the jump's offset is the body's length. No call can reach it, so
+  nothing is demanded of its frame size beyond its own instructions. -/
+def skipsUnit (i : Instr) (rest : List Nat) : Option (Nat × Nat) :=
+  if i.op = .Function then some (argAt i 5, 1 + argAt i 1 + argAt i 3)
+  else if i.op = .Jump ∧ rest.head? = some Op.NewFrame.code then some (argAt i 0, 0)
+  else none
+
+/-- Linear sweep over the bytes of one unit starting at absolute position `pc`. A nested unit
+(`skipsUnit`) is cut out of the listing and returned to be verified on its own: nothing of the
+enclosing unit can then fall or jump into it, because its positions are not instruction boundaries
+of the enclosing listing.
+`none`: some position does not decode, or a nested unit runs past the end of the unit. -/
 def sweep : Nat → Nat → List Nat → Option (List Ann × List Sub)
   | 0, _, _ => none
   | _ + 1, _, [] => some ([], [])
   | fuel + 1, pc, bs =>
     match decode bs with
     | .ok i size rest =>
-      if i.op = .Function then
-        let z := argAt i 5
+      match skipsUnit i rest with
+      | some (z, need) =>
         if z ≤ rest.length then
           match sweep fuel (pc + size + z) (rest.drop z) with
           | some (items, subs) =>
-            some (⟨pc, size, i, none⟩ :: items,
-                  ⟨pc + size, rest.take z, 1 + argAt i 1 + argAt i 3⟩ :: subs)
+            some (⟨pc, size, i, none⟩ :: items, ⟨pc + size, rest.take z, need⟩ :: subs)
           | none => none
         else none
-      else
+      | none =>
         match sweep fuel (pc + size) rest with
         | some (items, subs) => some (⟨pc, size, i, none⟩ :: items, subs)
         | none => none
